@@ -104,6 +104,19 @@ pub mod rust_log_ref_finder
                                 continue;
                             }
 
+                            /*
+                             * The name found here may be the tail of a longer path that is broken
+                             * up by white space ("other :: log::info!"), or a macro variable
+                             * ("$info!"): neither is an invocation of the macro the name alone
+                             * would stand for.
+                             */
+                            let before_name = code[..rule.as_span().start()].trim_end();
+
+                            if before_name.ends_with("::") || before_name.ends_with('$')
+                            {
+                                continue;
+                            }
+
                             (rule.as_str(), rule.as_span().start())
                         },
                     };
